@@ -1,5 +1,6 @@
 import Ufw.Props.C02
 import Ufw.Tie.RegTable
+import Ufw.Props.C02Iff
 #print axioms Ufw.Props.C02.refused_unchanged
 #print axioms Ufw.Props.C02.decision
 #print axioms Ufw.Props.C02.writeable_spec
@@ -10,3 +11,6 @@ import Ufw.Tie.RegTable
 #print axioms Ufw.Props.C02.block_write_frame
 #print axioms Ufw.Tie.RegTable.const_rds_size
 #print axioms Ufw.Tie.RegTable.const_enums
+#print axioms Ufw.Props.C02.malformed_complete
+#print axioms Ufw.Props.C02.blockWrite_total
+#print axioms Ufw.Props.C02.block_write_success_iff
